@@ -1,10 +1,11 @@
 (* C20 — the XML writer always produces well-formed, lossless XML.
    Model: Model/C20.v (giscanner/xmlwriter.py + saxutils.escape/quoteattr, byte-exact);
-   reader side: Model/C20Spec.v.  Proofs: Proofs/C20.v. *)
+   reader side: Model/C20Spec.v (references, attribute lists) and Model/C20D.v (whole documents).
+   Proofs: Proofs/C20.v, Proofs/C20D.v. *)
 From Coq Require Import List NArith ZArith Bool.
 From GIV.Lib Require Import Regex Str.
-From GIV.Model Require Import C20 C20Spec.
-From GIV.Proofs Require Import C20.
+From GIV.Model Require Import C20 C20Spec C20D.
+From GIV.Proofs Require Import C20 C20D.
 Import ListNotations.
 Local Open Scope N_scope.
 
@@ -51,3 +52,48 @@ Example C20_nonvacuous :
   forallb ctx_only p = true /\ snd (run_program p) = true /\
   check (fst (events_list p)) [] = Some [] /\ length (fst (events_list p)) = 5%nat.
 Proof. vm_compute. repeat split. Qed.
+
+(* whole documents: for EVERY program of leaf elements, comments and `with tagcontext` blocks of any
+   depth - element and attribute names being names (no blank, quote, '=', '<', '>', '/'; an element name
+   not beginning with '!' or '?'), comment text free of the end mark "-->", attribute values and
+   element text ARBITRARY strings - the reader of Model/C20D.v, written from XML 1.0, accepts the
+   bytes the writer returns and reports exactly the elements in order and nesting, exactly the
+   attributes that have a value with their exact values, exactly the text, and the writer's own
+   line breaks and indentation as the character data they are (layout_doc states where). *)
+Theorem C20_document_roundtrip : forall l, forallb pure l = true -> Forall wf l ->
+  xml_parse (fst (run_program l)) = Some (layout_doc l).
+Proof. exact document_roundtrip. Qed.
+Print Assumptions C20_document_roundtrip.
+
+(* the same with the reader's usual view, text made of blanks only being dropped: what comes back
+   is the document the program describes (doc_of), nothing added and nothing lost - provided no
+   element text consists of blanks only (such text cannot be told from indentation) *)
+Theorem C20_document_meaning : forall l,
+  forallb pure l = true -> Forall wf l -> forallb data_ok l = true ->
+  exists d, xml_parse (fst (run_program l)) = Some d /\
+            strip_all d = NPI decl_body :: flat_map doc_of l.
+Proof. exact document_meaning. Qed.
+Print Assumptions C20_document_meaning.
+
+(* the hypothesis on comments follows from the plain statement "the text does not contain -->" *)
+Theorem C20_comment_padding : forall x, no_cend x -> no_cend (32 :: x ++ [32]).
+Proof. exact no_cend_padded. Qed.
+Print Assumptions C20_comment_padding.
+
+(* non-vacuity: a nested program with markup characters in values and text, a valueless attribute,
+   a comment and an empty block satisfies the hypotheses, and its document has five elements *)
+Example C20_document_nonvacuous :
+  let p := [SCtx [97] [([120], Some [34;60;39;38;10]); ([121], None)]
+              [SLeaf [98] [] (Some [38;60;62]); SComment [104;45;45;105];
+               SCtx [99] [] [SLeaf [100] [([101], Some [49])] None]; SCtx [102] [] []]] in
+  forallb pure p = true /\ Forall wf p /\ forallb data_ok p = true /\
+  xml_parse (fst (run_program p)) = Some (layout_doc p) /\
+  flat_map doc_of p =
+    [NElem [97] [([120], [34;60;39;38;10])]
+       [NElem [98] [] [NText [38;60;62]]; NComment [32;104;45;45;105;32];
+        NElem [99] [] [NElem [100] [([101], [49])] []]; NElem [102] [] []]].
+Proof.
+  cbv zeta. split; [reflexivity|]. split.
+  - repeat first [apply no_cend_dec; reflexivity | split | discriminate | reflexivity | constructor].
+  - split; [reflexivity|]. split; [vm_compute; reflexivity|reflexivity].
+Qed.
